@@ -333,6 +333,32 @@ def native_holds(spec, obs, tree, scenario):
             if seq_ops == conc_ops and seq_after == conc_after:
                 return True
         return False
+    if k == "outside_only":
+        # everything under the scenario root that is not the cache must be one of the allowed paths, unchanged
+        if tree is None:
+            return None
+        allowed = spec["allowed"]
+        for path, ent in tree.items():
+            if path == "cache" or path.startswith("cache/"):
+                continue
+            if path in allowed:
+                want = allowed[path]
+                if want is None:
+                    continue
+                if ent.get("type") != "file":
+                    return False
+                if "len" in want and ent.get("len") != want["len"]:
+                    return False
+                if "sha256" in want and ent.get("sha256") != want["sha256"]:
+                    return False
+                continue
+            if ent.get("type") == "dir" and any(a.startswith(path + "/") for a in allowed):
+                continue
+            return False
+        for path, want in allowed.items():
+            if want is not None and path not in tree:
+                return False
+        return True
     if k == "tree_eq_cache_empty":
         if tree is None:
             return None
@@ -478,7 +504,7 @@ def witness_replay(ctx):
     except Unreplayable:
         return None
     for st in ctx.scn.log:
-        if st.op in ("hwrite_cancel", "quiesce"):
+        if st.op == "hwrite_cancel" or (st.op == "quiesce" and getattr(ctx.scn.env, "spawn_mode", "eager") != "eager"):
             return None      # timing-dependent natively
         if "reflink" in st.op and ctx.scn.env.reflink_supported:
             return None      # this sandbox's filesystem cannot reflink
